@@ -1,3 +1,11 @@
 def opaque(f):
     """marks a spec function that the solver sees as uninterpreted (native body used for replay only)"""
     return f
+
+
+def reads(*fields):
+    """heap fields a (recursive) spec function depends on: they become implicit parameters of its SMT definition"""
+    def deco(f):
+        f.__reads__ = fields
+        return f
+    return deco
